@@ -95,7 +95,7 @@ def str_set(e):
 MUTATORS = {"pop", "update", "append", "setdefault", "clear", "remove", "insert", "extend", "sort", "reverse",
             "popitem", "add", "discard", "__setitem__", "__delitem__", "difference_update", "intersection_update",
             "symmetric_difference_update"}
-PURE_CALLS = {"copy", "tuple", "list", "dict", "set", "frozenset", "int", "float", "complex", "str", "bytes", "bool", "repr",
+PURE_CALLS = {"copy", "tuple", "list", "dict", "set", "frozenset", "int", "float", "complex", "str", "bytes", "bool", "repr", "ascii", "abs", "ord", "chr", "format", "round", "divmod", "reversed",
               "isinstance", "len", "map", "filter", "sorted", "enumerate", "zip", "range", "iter", "next", "getattr", "hasattr",
               "literal_eval", "b64decode", "b64encode", "isinf", "isnan", "cast", "fields", "is_dataclass", "replace", "type",
               "ValueError", "NotImplementedError", "TypeError", "print", "any", "all", "sum", "min", "max", "hash", "id"}
@@ -297,6 +297,212 @@ def generate_heap(repo, outpath):
     lines.append("Definition loader_programs : list (list var * list hop) := [%s]." % "; ".join(items))
     lines.append("Definition loader_programs_declined : nat := %d." % sum(1 for _, _, p2, _ in progs if p2 is None))
     notes["changed"] = write_if_changed(outpath, "\n".join(lines) + "\n")
+    return notes
+
+
+# ---------------------------------------------------------------------------------------------
+# C12 (sharing): what a function can return, as expressions of coq/Model/FreshDoc.v
+
+IMM_CALLS = {"str", "repr", "ascii", "int", "float", "bool", "len", "isinstance", "isinf", "isnan", "is_dataclass",
+             "field_is_default", "b64encode", "b64decode", "type", "abs", "hash", "ord", "chr", "min", "max", "sum",
+             "literal_eval", "complex", "bytes"}
+NEW_CALLS = {"list", "tuple", "dict", "set", "frozenset", "sorted", "copy", "map", "filter", "reversed", "replace", "cast"}
+
+
+class FreshTranslator:
+    def __init__(self, funcs, order):
+        self.funcs = funcs          # name -> ast.FunctionDef
+        self.order = order          # analysed function names, index = FCall number
+
+    def function(self, name):
+        f = self.funcs[name]
+        params = [a.arg for a in f.args.args]
+        if f.args.vararg or f.args.kwarg or f.args.kwonlyargs or f.args.defaults:
+            raise Decline("signature of " + name)
+        env = {p: "FParam" for p in params}
+        rets = []
+        self.block(f.body, env, rets)
+        if not rets:
+            rets.append("FImm")
+        return rets
+
+    def block(self, body, env, rets):
+        for st in body:
+            if isinstance(st, ast.Return):
+                rets.append(self.expr(st.value, env) if st.value is not None else "FImm")
+            elif isinstance(st, (ast.Assign, ast.AnnAssign)):
+                targets = st.targets if isinstance(st, ast.Assign) else [st.target]
+                if st.value is None:
+                    continue
+                v = self.expr(st.value, env)
+                for t in targets:
+                    if not isinstance(t, ast.Name):
+                        raise Decline("assignment target " + type(t).__name__)
+                    env[t.id] = "(FChoice %s %s)" % (env[t.id], v) if t.id in env and env[t.id] != v else v
+            elif isinstance(st, ast.If):
+                self.block(st.body, env, rets)
+                self.block(st.orelse, env, rets)
+            elif isinstance(st, ast.For):
+                self.bind(st.target, self.items(st.iter, env), env)
+                self.block(st.body, env, rets)
+                self.block(st.orelse, env, rets)
+            elif isinstance(st, ast.Try):
+                self.block(st.body, env, rets)
+                for h in st.handlers:
+                    self.block(h.body, env, rets)
+                self.block(st.orelse, env, rets)
+                self.block(st.finalbody, env, rets)
+            elif isinstance(st, (ast.Raise, ast.Pass, ast.Assert)):
+                continue
+            elif isinstance(st, ast.Expr) and isinstance(st.value, (ast.Constant, ast.Call)):
+                continue            # docstring; a call for effect is the business of the HeapOps check
+            else:
+                raise Decline("statement " + type(st).__name__)
+
+    def bind(self, target, cls, env):
+        if isinstance(target, ast.Name):
+            env[target.id] = cls
+        elif isinstance(target, (ast.Tuple, ast.List)):
+            for t in target.elts:
+                self.bind(t, cls, env)
+        else:
+            raise Decline("loop target " + type(target).__name__)
+
+    def items(self, e, env):
+        """class of the items obtained by iterating e"""
+        if isinstance(e, ast.Call) and isinstance(e.func, ast.Name) and e.func.id == "map" and len(e.args) == 2:
+            return self.call_of(e.args[0], self.items(e.args[1], env), env)
+        if isinstance(e, ast.Call) and isinstance(e.func, ast.Name) and e.func.id in ("fields", "range", "enumerate", "zip"):
+            return "FGlobal" if e.func.id == "fields" else "FImm"
+        if isinstance(e, ast.Call) and isinstance(e.func, ast.Attribute) and e.func.attr in ("items", "values", "keys"):
+            return self.proj(self.expr(e.func.value, env))
+        if isinstance(e, ast.GeneratorExp):
+            return self.comp(e, e.elt, env, inner=True)
+        return self.proj(self.expr(e, env))
+
+    def proj(self, cls):
+        """a projection (attribute, item) of a value of class cls"""
+        if cls in ("FParam", "FImm", "FGlobal"):
+            return cls
+        if cls.startswith("(FNew ["):
+            raise Decline("projection of a new container")
+        raise Decline("projection of " + cls[:20])
+
+    def call_of(self, fn, argcls, env):
+        if isinstance(fn, ast.Name) and fn.id in self.order:
+            if argcls in ("FParam", "FImm"):
+                return "(FCall %d)" % self.order.index(fn.id)
+            if argcls == "FGlobal":
+                return "FGlobal"
+            raise Decline("argument of analysed call")
+        if isinstance(fn, ast.Name) and fn.id in IMM_CALLS:
+            return "FImm"
+        raise Decline("mapped function")
+
+    def comp(self, e, elt, env, inner=False):
+        env = dict(env)
+        for g in e.generators:
+            self.bind(g.target, self.items(g.iter, env), env)
+        c = self.expr(elt, env)
+        return c if inner else "(FNew [%s])" % c
+
+    def expr(self, e, env):
+        if isinstance(e, (ast.Constant, ast.JoinedStr, ast.Compare, ast.BinOp, ast.UnaryOp)):
+            return "FImm"
+        if isinstance(e, ast.BoolOp):
+            out = self.expr(e.values[0], env)
+            for v in e.values[1:]:
+                out = "(FChoice %s %s)" % (out, self.expr(v, env))
+            return out
+        if isinstance(e, ast.IfExp):
+            return "(FChoice %s %s)" % (self.expr(e.body, env), self.expr(e.orelse, env))
+        if isinstance(e, ast.Name):
+            if e.id in env:
+                return env[e.id]
+            if e.id in ("None", "True", "False", "Ellipsis"):
+                return "FImm"
+            return "FGlobal"
+        if isinstance(e, (ast.Attribute, ast.Subscript)):
+            return self.proj(self.expr(e.value, env))
+        if isinstance(e, ast.Dict):
+            vals = []
+            for k, v in zip(e.keys, e.values):
+                vals.append(self.proj(self.expr(v, env)) if k is None else self.expr(v, env))
+            return "(FNew [%s])" % "; ".join(vals)
+        if isinstance(e, (ast.List, ast.Tuple, ast.Set)):
+            return "(FNew [%s])" % "; ".join(self.proj(self.expr(x.value, env)) if isinstance(x, ast.Starred) else self.expr(x, env)
+                                             for x in e.elts)
+        if isinstance(e, (ast.ListComp, ast.SetComp, ast.GeneratorExp)):
+            return self.comp(e, e.elt, env)
+        if isinstance(e, ast.DictComp):
+            return self.comp(e, e.value, env)
+        if isinstance(e, ast.Call):
+            if any(kw.arg is None for kw in e.keywords):
+                kwcls = [self.proj(self.expr(kw.value, env)) for kw in e.keywords if kw.arg is None]
+            else:
+                kwcls = []
+            kwcls += [self.expr(kw.value, env) for kw in e.keywords if kw.arg is not None]
+            if isinstance(e.func, ast.Name):
+                n = e.func.id
+                if n in self.order:
+                    if len(e.args) != 1 or e.keywords:
+                        raise Decline("call shape of " + n)
+                    return self.call_of(e.func, self.expr(e.args[0], env), env)
+                if n == "getattr":
+                    return self.proj(self.expr(e.args[0], env))
+                if n == "cast" and len(e.args) == 2:
+                    return self.expr(e.args[1], env)
+                if n in IMM_CALLS:
+                    return "FImm"
+                if n in NEW_CALLS:
+                    if n == "map":
+                        return "(FNew [%s])" % self.call_of(e.args[0], self.items(e.args[1], env), env)
+                    if n == "replace":
+                        return "(FNew [%s])" % "; ".join([self.proj(self.expr(e.args[0], env))] + kwcls)
+                    its = [self.items(a, env) for a in e.args]
+                    return "(FNew [%s])" % "; ".join(its + kwcls)
+                if n[:1].isupper() and n not in env:
+                    # a class of the package: the constructor allocates, its arguments become items
+                    return "(FNew [%s])" % "; ".join([self.expr(a, env) for a in e.args] + kwcls)
+                raise Decline("call of " + n)
+            if isinstance(e.func, ast.Attribute):
+                base = self.expr(e.func.value, env)
+                if base == "FImm" and e.func.attr in ("decode", "encode", "hex", "format", "join", "lower", "upper", "real", "imag"):
+                    return "FImm"
+                if e.func.attr in ("get",):
+                    return self.proj(base)
+                raise Decline("method call ." + e.func.attr)
+            raise Decline("call")
+        raise Decline("expression " + type(e).__name__)
+
+
+FRESH_FUNCS = [("_json_data.py", "value_to_json"), ("_json_data.py", "code_data_to_json"), ("_normalize.py", "normalize")]
+
+
+def generate_fresh(repo, outpath):
+    from common import write_if_changed
+    notes = {}
+    head = ("(* generated by harness/translate_src.py from /repo/code_data on every run; do not edit.\n"
+            "   For each function: the expressions it can return, in the language of Model/FreshDoc.v. *)\n"
+            "From Coq Require Import List.\nImport ListNotations.\nFrom PCD Require Import Model.FreshDoc.\n")
+    try:
+        funcs = {}
+        for rel, name in FRESH_FUNCS:
+            with open(os.path.join(repo, "code_data", rel)) as f:
+                funcs[name] = find_func(ast.parse(f.read()), name)
+        order = [n for _, n in FRESH_FUNCS]
+        tr = FreshTranslator(funcs, order)
+        bodies = []
+        for n in order:
+            bodies.append("  (* %s *) [%s]" % (n, "; ".join(tr.function(n))))
+        text = head + "Definition fresh_prog : prog :=\n  [\n%s\n  ].\nDefinition fresh_translated := true.\n" % ";\n".join(bodies)
+        notes["fresh"] = "translated (%d functions)" % len(order)
+    except (Decline, OSError, SyntaxError, KeyError, IndexError) as e:
+        # fall back to the accepted shape of the pinned source: tied by the aliasing oracle only
+        text = head + ("(* declined: %s *)\nDefinition fresh_prog : prog := [[FImm]].\nDefinition fresh_translated := false.\n"
+                       % str(e).replace("*)", "* )")[:120])
+        notes["fresh"] = "declined: %s" % e
+    notes["changed"] = write_if_changed(outpath, text)
     return notes
 
 
